@@ -221,6 +221,8 @@ theorem execMsg_frame {m : Msg} {s s' : State} (h : execMsg m s = some s') :
       · split at h
         · cases h; simp
         · cases h
+    · simp [addDepositGov, show depositGuardsModule = true from rfl] at h
+    · simp [submitGov, show depositGuardsModule = true from rfl] at h
 
 theorem execMsgs_frame : ∀ (ms : List Msg) (s s' : State), execMsgs ms s = some s' →
     s'.props = s.props ∧ s'.deps = s.deps ∧ s'.gov = s.gov ∧ s'.inactive = s.inactive ∧ s'.active = s.active ∧
@@ -469,7 +471,7 @@ theorem activate_frame (s : State) (p : Proposal) :
 stored BEFORE the minimum of the message type replaces the default and the activation test runs on the updated local
 proposal; the deposit record last -/
 theorem addDepositSteps_order : addDepositSteps =
-    ["getProposal", "statusCheck", "getParams", "defaultMin", "getRatio", "denomCheck", "ratioCheck", "sendCoins", "addTotal",
+    ["getProposal", "statusCheck", "depositorNotModule:gov", "getParams", "defaultMin", "getRatio", "denomCheck", "ratioCheck", "sendCoins", "addTotal",
      "setProposal", "msgMin", "flag", "activate", "getDeposit", "mergeDeposit", "hooks", "sdkCtx", "event", "setDeposit", "return"] := rfl
 
 theorem depositRun_eq (s : State) (p : Proposal) (who : Addr) (amt : Nat) : depositRun s p who amt = depositEffect s p who amt := by
@@ -478,6 +480,7 @@ theorem depositRun_eq (s : State) (p : Proposal) (who : Addr) (amt : Nat) : depo
   -- the statements that neither read nor write what the model keeps
   have n1 : ∀ l, depStep who amt l "getProposal" = l := fun _ => rfl
   have n2 : ∀ l, depStep who amt l "statusCheck" = l := fun _ => rfl
+  have n2' : ∀ l, depStep who amt l "depositorNotModule:gov" = l := fun _ => rfl
   have n3 : ∀ l, depStep who amt l "getParams" = l := fun _ => rfl
   have n4 : ∀ l, depStep who amt l "getRatio" = l := fun _ => rfl
   have n5 : ∀ l, depStep who amt l "denomCheck" = l := fun _ => rfl
@@ -501,7 +504,7 @@ theorem depositRun_eq (s : State) (p : Proposal) (who : Addr) (amt : Nat) : depo
     rw [← activateRun_eq]; rfl
   have e7 : ∀ l, depStep who amt l "setDeposit" =
       { l with s := { l.s with deps := addDep l.s.deps l.p.id who amt, paid := l.s.paid ++ [⟨l.p.id, who, amt⟩] } } := fun _ => rfl
-  simp only [List.foldl, n1, n2, n3, n4, n5, n6, n7, n8, n9, n10, n11, n12, n13, e1, e2, e3, e4, e5, e7]
+  simp only [List.foldl, n1, n2, n2', n3, n4, n5, n6, n7, n8, n9, n10, n11, n12, n13, e1, e2, e3, e4, e5, e7]
   rw [e6]
   simp only [Option.getD_some]
   unfold depositEffect
